@@ -23,7 +23,7 @@ func init() { core.Register(c11{}) }
 func (c11) ID() string    { return "C11" }
 func (c11) Level() string { return "exploration" }
 func (c11) Rule() string {
-	return "metamorphic + frame check on run-time built struct types (reflect.StructOf). A seeded multiset of leaves (wire by name / by-type slice, func, value literal / placeholder / list, prop with and without default, prefix scalar / list, an anonymous struct WITH a prefix tag bound as a whole, logger, a user tag 'mytag' with arguments) plus decoys (exported untagged, foreign-tagged, unexported fields carrying recognised tags, a named (non-embedded) struct field containing tagged leaves, an embedded nil pointer), all decoys pre-filled with sentinels. The flat struct and 3 (quick) / 5 (thorough) random re-arrangements of the same leaves into anonymous untagged by-value embedded structs (depth <= 5) are each started on the real container with the same providers and configuration. Oracle: every leaf has the same value in every arrangement (component leaves compared by provider identity, config leaves by value) and equals the generator's expectation; a recording user tag processor received exactly the leaves carrying its tag with the tag's value and arguments; every sentinel is intact, leaves inside the named struct field are untouched, the embedded pointer stays nil. non-trivial = arrangement of depth >= 2 with >= 1 decoy below the top level; distinct = arrangement shape + leaf multiset; plus compile-time fixtures: equally named fields in sibling embedded structs, shadowed promoted fields, a non-nil embedded pointer that must not be entered; fixtures: embedded mix-in implementing ConfigurationProperties, logger:\"\" prefix at different embedding depths; an early subset-answering user post-processor; fixture with embedded structs carrying a user-defined / a foreign tag; fixtures: one field one binding (tag next to extract handler), logger with embed on a direct field"
+	return "metamorphic + frame check on run-time built struct types (reflect.StructOf). A seeded multiset of leaves (wire by name / by-type slice, func, value literal / placeholder / list, prop with and without default, prefix scalar / list, an anonymous struct WITH a prefix tag bound as a whole, logger, a user tag 'mytag' with arguments) plus decoys (exported untagged, foreign-tagged, unexported fields carrying recognised tags, a named (non-embedded) struct field containing tagged leaves, an embedded nil pointer), all decoys pre-filled with sentinels. The flat struct and 3 (quick) / 5 (thorough) random re-arrangements of the same leaves into anonymous untagged by-value embedded structs (depth <= 5) are each started on the real container with the same providers and configuration. Oracle: every leaf has the same value in every arrangement (component leaves compared by provider identity, config leaves by value) and equals the generator's expectation; a recording user tag processor received exactly the leaves carrying its tag with the tag's value and arguments; every sentinel is intact, leaves inside the named struct field are untouched, the embedded pointer stays nil. non-trivial = arrangement of depth >= 2 with >= 1 decoy below the top level; distinct = arrangement shape + leaf multiset; plus compile-time fixtures: equally named fields in sibling embedded structs, shadowed promoted fields, a non-nil embedded pointer that must not be entered; fixtures: embedded mix-in implementing ConfigurationProperties, logger:\"\" prefix at different embedding depths; an early subset-answering user post-processor; fixture with embedded structs carrying a user-defined / a foreign tag; fixtures: one field one binding (tag next to extract handler), logger with embed on a direct field; leaves the user processor claims by field type through its extract handler (no literal tag)"
 }
 func (c11) Assumptions() []string {
 	return []string{
@@ -77,6 +77,13 @@ func (m *mytagScanner) Naming() string { return "verif.mytagscanner" }
 
 var loggerType = reflect.TypeOf((*syslog.Logger)(nil)).Elem()
 
+// stamp: fields of this type are claimed by the user's processor by type (no literal tag)
+type stamp int
+
+var stampType = reflect.TypeOf(stamp(0))
+
+const stampTagVal = "by-type,k=auto"
+
 const c11Config = "c11:\n  s: from-config\n  i: 17\n  l: [p, q, r]\n  sub:\n    s: nested-value\n    n: 5\n"
 
 func genLeaves(c *core.Ctx) []leaf {
@@ -120,11 +127,21 @@ func genLeaves(c *core.Ctx) []leaf {
 			add(leaf{typ: loggerType, tag: `logger:""`, kind: "logger"})
 		case 13:
 			// (values with blanks at their ends are handed over as written)
-			v := []string{"v1,k=a b", "plain", "x,Flag,n=[1,2] z", " | ", "  ,kind=prefix", " padded ,k=a b", "tail  "}[c.Rng.Intn(7)]
+			v := []string{"v1,k=a b", "plain", "x,Flag,n=[1,2] z", " | ", "  ,kind=prefix", " padded ,k=a b", "tail  ", "-", "-"}[c.Rng.Intn(9)]
 			add(leaf{typ: reflect.TypeOf(0), tag: fmt.Sprintf("mytag:%q", v), kind: "custom", expect: v})
 		case 14:
+			if c.Rng.Intn(2) == 0 {
+				// a field the user's processor claims by its type (through the scanner's extract handler) instead of
+				// by a literal tag: it is handed over like a tagged one, at any embedding depth
+				add(leaf{typ: stampType, tag: "", kind: "custom", expect: stampTagVal})
+				break
+			}
 			add(leaf{typ: reflect.TypeOf(""), tag: `value:"${c11.none:dflt}"`, expect: "dflt", kind: "value"})
 		case 15:
+			if c.Rng.Intn(2) == 0 {
+				add(leaf{typ: reflect.TypeOf(""), tag: `value:"-"`, expect: "-", kind: "value"}) // a literal dash is a value
+				break
+			}
 			add(leaf{typ: reflect.TypeOf(0), tag: `value:"#{${c11.i}+1}"`, expect: 18, kind: "value"})
 		}
 	}
@@ -301,7 +318,13 @@ func (p c11) Run(c *core.Ctx) {
 		if s%2 == 0 {
 			nt = component_definition.PropertyTypeConfiguration
 		}
-		scan := &mytagScanner{processors.DefaultTagScanDefinitionRegistryPostProcessor{NodeType: nt, Tag: "mytag"}}
+		scan := &mytagScanner{processors.DefaultTagScanDefinitionRegistryPostProcessor{NodeType: nt, Tag: "mytag",
+			ExtractHandler: func(_ *component_definition.Meta, f *component_definition.Field) (string, string, bool) {
+				if f.StructField.Type == stampType {
+					return "mytag", stampTagVal, true
+				}
+				return "", "", false
+			}}}
 		extra := []any{h, rec, scan}
 		if s%2 == 1 {
 			// an early user post-processor that answers with the properties it handled (none)
